@@ -166,7 +166,9 @@ CLAIMED = {
              "theorems: pool reader for any readable pool incl. the long-string escape, table reader for any row order, type words "
              "incl. integer field sizes 1/2/4, catalog reader, property-set reader, totality of all readers.  Changes made "
              "afterwards through the API preserve untouched content: C03 frame theorems (every other table, streams, summary "
-             "untouched) and C01.  PARTIAL for: property-set layouts other than the writer's (value order, gaps) and non-UTF-8 "
+             "untouched) and C01.  props/C02_orphans.v: the same for files whose _Validation table also describes tables and columns "
+             "that are NOT in the file, as real-world packages do (C02_open_encoded_orphans, with a witness outside the plain "
+             "reader invariant).  PARTIAL for: property-set layouts other than the writer's (value order, gaps) and non-UTF-8 "
              "code pages - decided by the correspondence: databases from an independent encoder written from the format "
              "description (tools/msienc.py: every feature above, 6 code pages, 3 property-set layouts, summary without a code page "
              "property) are wrapped with the cfb crate, opened, compared in full with the encoder's abstract database, modified "
